@@ -68,7 +68,7 @@ def run(ctx):
     dspecs += [{"kind": "positional", "delta": 0.5},
                {"kind": "combined", "alpha": 3.0, "beta": 0.0, "delta": 2.0, "pos": None, "cat": None},
                {"kind": "combined", "alpha": 0.0, "beta": 1.0, "delta": 0.1, "pos": None, "cat": None}]
-    n_cases = ctx.scale(250, 1600)
+    n_cases = ctx.scale(250, 6000)
     for _ in range(n_cases):
         if ctx.out_of_time():
             break
